@@ -632,6 +632,7 @@ func runRace(ctx *runner.Ctx, k cs) {
 	if ctx.Quick() {
 		args = append(args, "-short")
 	}
+	args = append(args, runner.RaceDeadlineArg(ctx))
 	if runner.RepoDir != "/repo" {
 		args = append(args, "-modfile="+os.Getenv("VERIF_WORK")+"/go.mod")
 	}
@@ -653,6 +654,7 @@ func runRace(ctx *runner.Ctx, k cs) {
 			end = len(o)
 		}
 		ctx.Violate("concurrent-compilation.data-race", "two compilations that overlap in time share unsynchronised state: "+o[i:end], k)
+	case err != nil && runner.RaceDeadlineHit(ctx, "concurrent compilations", o):
 	case err != nil && strings.Contains(o, "--- FAIL"):
 		ctx.Violate("concurrent-compilation.differs", "compiling concurrently gives another result than compiling sequentially: "+tail, k)
 	case err != nil:
